@@ -258,6 +258,13 @@ where
     if c["clone"].as_bool().unwrap_or(false) { let copy = cl.clone(); drop(cl); cl = copy; }
     let msgs: Vec<Vec<u8>> = stim["req"]["msgs"].as_array().cloned().unwrap_or_default().iter().map(json_bytes).collect();
     let (meta, rejected) = build_meta(&stim["req"]["meta"]);
+    // client.warmup: an unrecorded unary call is made first on the same client and connection (it ends however the script says);
+    // the judged call is then the client's and the connection's second use and must not be affected
+    if c["warmup"].as_bool().unwrap_or(false) {
+        crate::labs::REC_PAUSED.store(true, std::sync::atomic::Ordering::SeqCst);
+        let _ = tokio::time::timeout(std::time::Duration::from_secs(30), cl.unary(Request::new(msgs.first().cloned().unwrap_or_default()))).await;
+        crate::labs::REC_PAUSED.store(false, std::sync::atomic::Ordering::SeqCst);
+    }
     log.ev(json!({"e":"cli_built","rejected":rejected}));
     let tmo = c["timeout_ms"].as_u64();
     // the request is assembled in one of the ways the API offers, chosen by the number of metadata entries: metadata set on the finished
@@ -528,7 +535,7 @@ pub fn gen(seed: u64, tier: &str) -> Vec<Value> {
         let shim = if h2 { json!({"cap": 65536, "rq": rq, "wq": wq, "pend": pe}) } else { json!({"cap":0,"rq":0,"wq":0,"pend":0}) };
         out.push(json!({"mode":"client","class": if h2 {"h2"} else {"inproc"},"transport": if h2 {"h2"} else {"inproc"},"shim":shim,"shape":shape,
             "server":{"send":s_send,"accept":s_acc,"max_dec":-1,"max_enc":-1},
-            "client":{"send":c_send,"accept":c_acc,"max_dec":-1,"max_enc":-1,"clone":rng.gen_bool(0.3)},
+            "client":{"send":c_send,"accept":c_acc,"max_dec":-1,"max_enc":-1,"clone":rng.gen_bool(0.3),"warmup":rng.gen_bool(0.3)},
             "req":{"meta":crate::labs::status::rand_meta(&mut rng),"msgs":req_msgs,"pend":(0..=nreq + 1).filter(|_| rng.gen_bool(0.25)).collect::<Vec<usize>>()},
             "script":rand_script(&mut rng, shape)}));
     }
